@@ -16,6 +16,7 @@ package main
 import (
 	"go/token"
 	"go/types"
+	"strings"
 
 	"golang.org/x/tools/go/ssa"
 )
@@ -197,6 +198,11 @@ func bodyFns(fn *ssa.Function, except func(*ssa.Function) bool) []*ssa.Function 
 				if g := helperCallee(in, pkg); g != nil && gNewFuncs[g] && (except == nil || !except(g)) {
 					walk(g, depth-1)
 				}
+				if mc, ok := in.(*ssa.MakeClosure); ok {
+					if g := boundMethodTarget(mc); g != nil && gNewFuncs[g] && (except == nil || !except(g)) {
+						walk(g, depth-1)
+					}
+				}
 			}
 		}
 	}
@@ -225,7 +231,7 @@ func exceptExported(f *ssa.Function) bool { return isExportedFn(f) }
 func callsInBody(fn *ssa.Function, ids ...string) []*ssa.Call {
 	var out []*ssa.Call
 	for _, g := range bodyFns(fn, exceptExported) {
-		out = append(out, callsIn(g, ids...)...)
+		out = append(out, callsInShallow(g, ids...)...)
 	}
 	return out
 }
@@ -705,4 +711,101 @@ func condLiftCut(f *ssa.Function, p func(ssa.Instruction) bool) func(from, to *s
 		}
 	})
 	return func(from, to *ssa.BasicBlock) bool { return cutEdges[edge{from, to}] }
+}
+
+
+// projectChain: in, then the call sites through which it executes as long as its function is a helper
+// the reference tree does not have with exactly one call site.
+func projectChain(in ssa.Instruction) []ssa.Instruction {
+	out := []ssa.Instruction{in}
+	cur := in
+	for depth := 0; depth < 4; depth++ {
+		p := outermostNew(cur.Parent())
+		if p == nil || len(gCallSitesOf[p]) != 1 {
+			break
+		}
+		cur = gCallSitesOf[p][0]
+		out = append(out, cur)
+	}
+	return out
+}
+
+// outermostNew: the new helper (canon.go) that f is, or is a closure of; nil if none.
+func outermostNew(f *ssa.Function) *ssa.Function {
+	for g := f; g != nil; g = g.Parent() {
+		if gNewFuncs[g] {
+			return g
+		}
+	}
+	return nil
+}
+
+// projectPair: representatives of a and b inside one function (a's and b's call-site chains meet).
+func projectPair(a, b ssa.Instruction) (ssa.Instruction, ssa.Instruction) {
+	if len(gNewFuncs) == 0 {
+		return nil, nil
+	}
+	ca, cb := projectChain(a), projectChain(b)
+	for _, x := range ca {
+		for _, y := range cb {
+			if x.Parent() == y.Parent() {
+				return x, y
+			}
+		}
+	}
+	return nil, nil
+}
+
+// newHelpersOf: the helpers the reference tree does not have that fn's own instructions (not its
+// closures') call statically, transitively, each with its closures.
+func newHelpersOf(fn *ssa.Function) []*ssa.Function {
+	if len(gNewFuncs) == 0 || fn == nil {
+		return nil
+	}
+	var out []*ssa.Function
+	seen := map[*ssa.Function]bool{fn: true}
+	var walk func(f *ssa.Function, depth int)
+	walk = func(f *ssa.Function, depth int) {
+		for _, b := range f.Blocks {
+			for _, in := range b.Instrs {
+				var h *ssa.Function
+				switch x := in.(type) {
+				case ssa.CallInstruction:
+					h = x.Common().StaticCallee()
+				case *ssa.MakeClosure:
+					h = boundMethodTarget(x)
+				}
+				if h == nil || !gNewFuncs[h] || seen[h] || depth == 0 {
+					continue
+				}
+				seen[h] = true
+				for _, g := range withClosures(h) {
+					out = append(out, g)
+				}
+				walk(h, depth-1)
+				for _, g := range closuresOf(h) {
+					walk(g, depth-1)
+				}
+			}
+		}
+	}
+	walk(fn, summaryDepth)
+	return out
+}
+
+// boundMethodTarget: for `x.m` used as a function value (a bound-method wrapper closure), the method m.
+func boundMethodTarget(mc *ssa.MakeClosure) *ssa.Function {
+	w, ok := mc.Fn.(*ssa.Function)
+	if !ok || !strings.HasPrefix(w.Synthetic, "bound method wrapper") {
+		return nil
+	}
+	var out *ssa.Function
+	allInstrs(w, func(in ssa.Instruction) {
+		if ci, ok := in.(ssa.CallInstruction); ok {
+			if h := ci.Common().StaticCallee(); h != nil {
+				out = h
+			}
+		}
+	})
+	return out
 }
